@@ -264,7 +264,16 @@ func TestVerif_C20_Windows(t *testing.T) {
 		add := func(sig, format string, a ...interface{}) {
 			rep := map[string]interface{}{"case": idx, "meter": mt.name(), "mode": mode, "base_unix": base.Unix(), "started_before_step": startAt,
 				"history_t_ms_counter_sample_avg": append([]string(nil), log...)}
-			outs[idx] = append(outs[idx], out{sig, fmt.Sprintf(format, a...) + fmt.Sprintf(" [%s, %s, step %d] history(t_ms,counter,doSample,avg)=%s", mt.name(), mode, len(log)-1, strings.Join(tail(log, 12), " ")), rep})
+			outs[idx] = append(outs[idx], out{sig, fmt.Sprintf(format, a...) + fmt.Sprintf(" [%s, %s, step %d] history(t_ms,counter,doSample,avg)=%s", mt.name(), mode, len(log)-1, strings.Join(verifTail(log, 12), " ")), rep})
+		}
+		// a fresh meter refuses every reading
+		for g := 0; g < 4; g++ {
+			gi := g
+			if val, refused, _ := verifTry(func() float64 { return mt.public(gi) }); !refused {
+				add("c20:read-before-start-not-refused", "getter %d of a fresh meter returned %v", g, val)
+				return
+			}
+			m.Count("refusals_before_start", 1)
 		}
 		cands := []refkxps.State{{}}
 		var avg refkxps.Average
@@ -391,9 +400,6 @@ func TestVerif_C20_Windows(t *testing.T) {
 				}
 				if p.Last[g] == 1 {
 					m.Count([]string{"nonzero_rate_10s_checked", "nonzero_rate_30s_checked", "nonzero_rate_300s_checked"}[g], 1)
-					if wrap && st.c < 1<<32 && g == 0 {
-						// the counter is now small; was the window's previous sample still below 2^64?  (checked on the value)
-					}
 				}
 				if p.Last[g] == 2 {
 					m.Count("backwards_or_stall_yielded_zero", 1)
@@ -478,7 +484,7 @@ func verifBucket(n int) int {
 	return 200
 }
 
-func tail(s []string, n int) []string {
+func verifTail(s []string, n int) []string {
 	if len(s) > n {
 		return append([]string{"…"}, s[len(s)-n:]...)
 	}
